@@ -133,6 +133,10 @@ def callback(callback, topics, qos=0, userdata=None, hostname="localhost",
     if qos < 0 or qos > 2:
         raise ValueError('qos must be in the range 0-2')
 
+    # Ignore clean_session if protocol is MQTTv50, otherwise Client will raise
+    if protocol == paho.MQTTv5:
+        clean_session = None
+
     callback_userdata = {
         'callback':callback,
         'topics':topics,
